@@ -587,7 +587,7 @@ func NewTileXYZ(hZoom int64, x int64, y int64, vZoom int64, z int64) (*TileXYZ, 
 //	以下の条件に当てはまる場合、エラーインスタンスが返却される。
 //	 ズームレベル不正：hZoomに[0, consts.MaxTileXYZZoom]以外の数値が含まれていた場合
 func (a *TileXYZ) SetHZoom(hZoom int64) error {
-	if !(hZoom <= consts.MaxTileXYZZoom) {
+	if !(0 <= hZoom && hZoom <= consts.MaxTileXYZZoom) {
 		return errors.NewSpatialIdError(errors.InputValueErrorCode, fmt.Sprintf("hZoom must be in 0-%v, but got %v", consts.MaxTileXYZZoom, hZoom))
 	}
 	a.hZoom = hZoom
@@ -629,7 +629,7 @@ func (a *TileXYZ) SetY(y int64) {
 //	以下の条件に当てはまる場合、エラーインスタンスが返却される。
 //	 ズームレベル不正：はvZoomに0-35以外の数値が含まれていた場合
 func (a *TileXYZ) SetVZoom(vZoom int64) error {
-	if !(vZoom <= consts.MaxTileXYZZoom) {
+	if !(0 <= vZoom && vZoom <= consts.MaxTileXYZZoom) {
 		return errors.NewSpatialIdError(errors.InputValueErrorCode, fmt.Sprintf("vZoom must be in 0-%v, but got %v", consts.MaxTileXYZZoom, vZoom))
 	}
 	a.vZoom = vZoom
